@@ -291,38 +291,46 @@ def sign_table_or_fail(ck, fa: FuncAnalysis, param: str, name: str) -> Optional[
         return None
 
 
+def _under_sign(fa: FuncAnalysis, param: str, s: str):
+    """The function evaluated (abstractly, never run) under the assumption that `param` has sign s: every test and
+    conditional expression that is a sign test of `param` is decided; temporaries, if/else statements vs conditional
+    expressions, inverted branches and renamed locals all reduce to the same value ids."""
+    from sa.forward import Forward
+
+    def dec(c):
+        return _sign_eval(c, param, s)
+    fw = Forward(fa.an, fa, assume=lambda st, f: dec(f.cmp(st.test)), call_effects=False)
+    fw.sym.decide = dec
+    fw.run()
+    return fw
+
+
 def sign_table_func(fa: FuncAnalysis, param: str) -> Dict[str, str]:
-    """Evaluate the branch structure of a function whose parameter is only
-    compared with zero: sign -> canonical returned expression | 'raise'."""
+    """sign of `param` -> canonical returned value | 'raise' | 'fallthrough'. NotASignTable when a sign does not
+    determine the outcome (the result depends on more than the sign)."""
     out = {}
     for s in SIGNS:
-        out[s] = _sign_walk(fa, fa.f.body_without_docstring(), param, s)
-        if out[s] is None:
-            out[s] = "fallthrough"
+        fw = _under_sign(fa, param, s)
+        vals = {v.key() if v is not None else "None" for r, v, st in fw.returns}
+        if len(vals) > 1 or (vals and fw.st.alive):
+            raise NotASignTable(f"for a {s} `{param}` the result is one of {sorted(vals)}{' or a fall-through' if fw.st.alive else ''}: it depends on more than the sign")
+        if vals:
+            out[s] = next(iter(vals))
+            if "ite(" in out[s] or "phi" in out[s]:
+                raise NotASignTable(f"for a {s} `{param}` the result is {out[s][:120]}: it depends on more than the sign")
+        else:
+            out[s] = "fallthrough" if fw.st.alive else "raise"
     return out
 
 
-def _sign_walk(fa: FuncAnalysis, stmts, param: str, s: str) -> Optional[str]:
-    for st in stmts:
-        if isinstance(st, ast.Return):
-            if isinstance(st.value, ast.IfExp):
-                return sign_table_expr(fa.sym, st.value, param)[s]
-            return fa.sym.canon(st.value) if st.value is not None else "None"
-        if isinstance(st, ast.Raise):
-            return "raise"
-        if isinstance(st, ast.If):
-            c = fa.sym.cmp(st.test)
-            v = _sign_eval(c, param, s)
-            if v is None:
-                raise NotASignTable(f"condition {cmp_key(c)} is not a sign test of {param}")
-            r = _sign_walk(fa, st.body if v else st.orelse, param, s)
-            if r is not None:
-                return r
-            continue
-        if isinstance(st, (ast.Expr, ast.Pass)):
-            continue
-        raise NotASignTable(f"statement `{ast.unparse(st)[:60]}` makes the result depend on more than the sign")
-    return None
+def sign_table_slot(fa: FuncAnalysis, param: str, slot: str) -> Dict[str, str]:
+    """sign of `param` -> canonical value stored in `slot` (e.g. 'self.acq_price') when the function ends."""
+    out = {}
+    for s in SIGNS:
+        fw = _under_sign(fa, param, s)
+        v = fw.st.slots.get(slot)
+        out[s] = v.key() if v is not None else "unset"
+    return out
 
 
 def loop_item(fa, loop, i=None):
@@ -345,3 +353,69 @@ def rel_is(p, op: str, poly) -> bool:
     if p[0] != "rel" or p[1] != op:
         return False
     return p[4] == poly or (op in ("==", "!=") and p[4] == -poly)
+
+
+# ------------------------------------------------------------- evaluation under assumptions
+
+def _rel_signs(op: str):
+    return {s for s in (-1, 0, 1) if {"<": s < 0, "<=": s <= 0, "==": s == 0, "!=": s != 0}[op]}
+
+
+def decide_by_facts(c, facts) -> Optional[bool]:
+    """Truth of the CMP normal form c given facts (CMP normal forms taken as true): identical / negated predicates, and
+    relations on the same polynomial (p < 0 decides p <= 0, p != 0, -p < 0, ...). None when the facts do not decide it."""
+    from sa.dataflow import cmp_negate, cmp_strip_nan
+    c = cmp_strip_nan(c)
+    if c[0] in ("and", "or"):
+        vals = [decide_by_facts(k, facts) for k in c[1]]
+        if c[0] == "and":
+            return False if any(v is False for v in vals) else (None if any(v is None for v in vals) else True)
+        return True if any(v is True for v in vals) else (None if any(v is None for v in vals) else False)
+    for f in facts:
+        f = cmp_strip_nan(f)
+        if f[0] == "and":
+            r = decide_by_facts(c, f[1])
+            if r is not None:
+                return r
+            continue
+        if cmp_key(c) == cmp_key(f):
+            return True
+        if cmp_key(c) == cmp_key(cmp_strip_nan(cmp_negate(f))):
+            return False
+        if c[0] == "rel" and f[0] == "rel":
+            k = 1 if c[4] == f[4] else (-1 if c[4] == -f[4] else 0)
+            if k:
+                allowed = _rel_signs(f[1])
+                truth = {(k * s) in _rel_signs(c[1]) for s in allowed}
+                if len(truth) == 1:
+                    return next(iter(truth))
+            if f[1] == "==" and c[1] in ("==", "!="):
+                # x == K1 decides x == K2 for another literal K2: c.poly = f.poly + (difference of distinct literals), and f.poly = 0
+                for sign in (1, -1):
+                    d = c[4] - (f[4] if sign == 1 else -f[4])
+                    atoms = d.atoms()
+                    if d.t and all(a[:1] in ("'", '"') or a[:2] in ("b'", 'b"') for a in atoms) and (atoms or d.const_value() not in (None, 0)):
+                        return c[1] == "!="
+    return None
+
+
+def under(fa, facts_src, on_stmt=None, call_effects=False):
+    """Forward evaluation of fa's function under assumptions written in source syntax over the function's own names
+    (evaluated where they are used, so loop variables are bound): tests and conditional values they decide collapse."""
+    from sa.forward import Forward
+    holder = {}
+
+    def dec(c):
+        fw = holder["fw"]
+        facts = []
+        for t in facts_src:
+            try:
+                facts.append(fw.cmp(ast.parse(t, mode="eval").body))
+            except Exception:
+                pass
+        return decide_by_facts(c, facts)
+    fw = Forward(fa.an, fa, on_stmt=on_stmt, assume=lambda st, f: dec(f.cmp(st.test)), call_effects=call_effects)
+    holder["fw"] = fw
+    fw.sym.decide = dec
+    fw.run()
+    return fw
